@@ -6,12 +6,15 @@
    its whole amount traded or nothing -- nothing only if no fill was proposed (liquidity, stop not reached), the fill
    rounds to nothing, or the account lacks the funds; with unlimited liquidity a market order, and a stop order whose
    stop the bar reaches, always get a fill proposed, hence are completely filled funds permitting.
-   C04_partial: the completeness sentence for limit orders (filled by the first bar whose range reaches the limit) is
-   checked by the monitor on dedicated histories, not proved. *)
+   Limit orders likewise: a bar whose range reaches the limit fills the whole pending amount, funds permitting; the
+   premise "something is pending" holds for every open order of every reachable state.
+   C04_partial: these completeness theorems are per processed order; that every open order of a pair is processed by every
+   bar of that pair is the index theorem of C05 (IndexProofs.v) and is composed with them only for market / stop orders
+   (FirstBar.v); the monitor checks the sentence end to end on ample-funds histories. *)
 From Coq Require Import ZArith QArith List.
 From Basana Require Import Num.DecQ Num.DecQProofs Exchange.Model Exchange.OrderProofs
      Exchange.Structure Exchange.FeeHistory Exchange.LimitHistory Exchange.FillTimes Exchange.NoPartial Exchange.FirstBar
-     Exchange.Complete.
+     Exchange.Complete Exchange.Prims.
 Import ListNotations.
 Open Scope Q_scope.
 
@@ -152,6 +155,48 @@ Theorem C04_stop_order_filled_when_reached_funds_permitting : forall c s o p whe
     (filled o' == o_amount o \/ (filled o' == 0 /\ (rounds_to_nothing c None o b \/ refused_for_funds c s o))).
 Proof. exact stop_order_filled_when_reached_funds_permitting. Qed.
 Print Assumptions C04_stop_order_filled_when_reached_funds_permitting.
+
+(* ... and a limit order is completely filled by a bar whose range reaches its limit, funds permitting; otherwise it
+   stays open, untouched *)
+Theorem C04_limit_order_filled_when_reached_funds_permitting : forall c s o p when b lp bp qp s' l',
+  get_order s (o_id o) = Some o -> is_open o = true -> o_kind o = KLimit lp -> 0 < lp -> bar_ok b ->
+  get_pair_info c (o_pair o) = Ok (bp, qp) -> on_grid bp (o_amount o) -> on_grid bp (o_fb o) -> OW o -> 0 < pending o ->
+  reaches_limit o b lp ->
+  process_order c s None o p when b = Done s' l' ->
+  exists o', get_order s' (o_id o) = Some o' /\
+    ((is_open o' = false /\ filled o' == o_amount o) \/
+     (is_open o' = true /\ o_fb o' = o_fb o /\ (rounds_to_nothing c None o b \/ refused_for_funds c s o))).
+Proof. exact limit_order_filled_when_reached_funds_permitting. Qed.
+Print Assumptions C04_limit_order_filled_when_reached_funds_permitting.
+
+(* its premise "something is pending" holds for every open order of every reachable state *)
+Theorem C04_open_orders_have_something_pending : forall c initial ops i o,
+  cfg_ok c -> ops_ok ops ->
+  nth_error (s_orders (run c (init_st initial) ops)) i = Some o -> is_open o = true -> 0 < pending o.
+Proof. exact open_orders_have_something_pending. Qed.
+Print Assumptions C04_open_orders_have_something_pending.
+
+(* the premises of the limit theorem are met in a reachable state: a limit buy of 5 at 100, still open after a bar that
+   did not reach its limit, is completed by a bar that does *)
+Example C04_limit_completeness_premises_met :
+  let c := mkCfg [(1%positive, 2%nat); (2%positive, 2%nat)] [] None NoFee InfLiq NoLoans in
+  let p := (1%positive, 2%positive) in
+  let ops := [OBar p 60%Z (mkBar 150 150 150 150 10); OCreate (KLimit 100) Buy p 5 false false;
+              OBar p 120%Z (mkBar 140 141 120 130 10)] in
+  let b := mkBar 120 121 99 100 10 in
+  let s := run c (init_st [(2%positive, 1000)]) ops in
+  exists o, get_order s 0%nat = Some o /\ o_id o = 0%nat /\ is_open o = true /\ o_kind o = KLimit 100 /\ bar_ok b /\
+    get_pair_info c (o_pair o) = Ok (2%nat, 2%nat) /\ on_grid 2 (o_amount o) /\ on_grid 2 (o_fb o) /\ OW o /\
+    0 < pending o /\ reaches_limit o b 100 /\
+    exists s' l', process_order c s None o p 180%Z b = Done s' l' /\
+      option_map (fun o' => (is_open o', Qred (filled o'))) (get_order s' 0%nat) = Some (false, 5).
+Proof.
+  cbv zeta. eexists. split; [vm_compute; reflexivity|]. split; [reflexivity|]. split; [reflexivity|]. split; [reflexivity|].
+  split; [unfold bar_ok; cbn; repeat split; discriminate|]. split; [reflexivity|].
+  split; [exists 500%Z; vm_compute; reflexivity|]. split; [exists 0%Z; vm_compute; reflexivity|].
+  split; [unfold OW; cbn; split; discriminate|]. split; [vm_compute; reflexivity|]. split; [cbn; discriminate|].
+  eexists. eexists. split; vm_compute; reflexivity.
+Qed.
 
 (* the premises are met in a reachable state (the order invariant NP holds there by NoPartial.run_NI), and both exits
    happen: with 1000 USD the market buy of 5 at 100 is filled completely; with 400 USD it is closed unfilled *)
